@@ -299,6 +299,10 @@ func (fv *FuncVerifier) checkFrameAt(st *State, label string, pos token.Pos) {
 		sorted = append(sorted, k)
 	}
 	sort.Strings(sorted)
+	// one obligation per site: the conjunction over all touched heap arrays (split on failure,
+	// the failing part names the array)
+	var goals []Term
+	var parts []string
 	for _, name := range sorted {
 		if strings.HasPrefix(name, "LK_") && !fv.locksInFrame() {
 			continue
@@ -309,8 +313,14 @@ func (fv *FuncVerifier) checkFrameAt(st *State, label string, pos token.Pos) {
 		if !ok || goal.S == "true" {
 			continue
 		}
-		fv.addOb(st, "frame", fmt.Sprintf("frame:%s@%s", name, label), goal, "only locations in the modifies clause change", pos)
+		goals = append(goals, goal)
+		parts = append(parts, name)
 	}
+	if len(goals) == 0 {
+		return
+	}
+	ob := fv.addOb(st, "frame", fmt.Sprintf("frame@%s", label), And(goals...), "only locations in the modifies clause change", pos)
+	ob.Parts = parts
 }
 
 func (e *Enc) heapNames() []string {
